@@ -61,10 +61,14 @@ def queries(rng, fgg, shape, linear):
         except RecursionError:
             return 'RecursionError'
     Q.append(('viterbi', 'viterbi', vit))
+    def rules_summary(rules):
+        # names included: a second call must introduce the same fresh names
+        return [(r.lhs.name, len(list(r.rhs.nodes())), sorted(e.label.name for e in r.rhs.edges())) for r in rules]
     for m in ('min_fill', 'quickbb', 'acb'):
-        Q.append((f'factorize_fgg[{m}]', None, lambda g, m=m: len(factorize_fgg(g, method=m).all_rules())))
-        Q.append((f'factorize_hrg[{m}]', None, lambda g, m=m: len(factorize_hrg(g, method=m).all_rules())))
-    Q.append(('factorize_rule', None, lambda g: len(factorize_rule(g.all_rules()[0])) if g.all_rules() else 0))
+        Q.append((f'factorize_fgg[{m}]', None, lambda g, m=m: rules_summary(factorize_fgg(g, method=m).all_rules())))
+        Q.append((f'factorize_hrg[{m}]', None, lambda g, m=m: rules_summary(factorize_hrg(g, method=m).all_rules())))
+        Q.append((f'factorize_rule[{m}]', None, lambda g, m=m: [rules_summary(factorize_rule(r, method=m)) for r in g.all_rules()]))
+    Q.append(('factorize_rule', None, lambda g: [rules_summary(factorize_rule(r)) for r in g.all_rules()]))
     Q.append(('conjoin_hrgs', None, lambda g: len(conjoin_hrgs(g, g.copy()).all_rules())))
     Q.append(('hrg_to_json', None, lambda g: json.dumps(formats.hrg_to_json(g), sort_keys=True)))
     Q.append(('fgg_to_json', None, lambda g: json.dumps(formats.fgg_to_json(g), sort_keys=True)))
@@ -95,6 +99,14 @@ def run_queries(ctx):
             if name == 'viterbi' and rec:
                 sh = dict(sh, weights={i: [min(x, 0.0) for x in w] for i, w in sh['weights'].items()})
             g, info = semgen.build(sh, name, torch.float64, ids=ctx.rng.choice(['implicit', 'explicit']))
+            if name in ('viterbi', 'log') and ctx.rng.random() < 0.4:
+                # log-weights held as PatternedTensors whose default already is the semiring zero (as produced by .log()), with
+                # infinite entries: a query must not normalise them in place
+                for el in info['TL']:
+                    w = g.factors[el.name].weights.to_dense().clone()
+                    if w.numel() and ctx.rng.random() < 0.5:
+                        w.view(-1)[ctx.rng.randrange(w.numel())] = math.inf
+                    g.factors[el.name].weights = PatternedTensor(w, default=-math.inf)
             if name in ('real', 'log') and ctx.rng.random() < 0.5:
                 for el in info['TL']:
                     g.factors[el.name].weights.physical.requires_grad_(True)
